@@ -34,6 +34,11 @@ Streams:
               leak from one step's script into the next
   rewrite     steps with one name written one after the other into the SAME
               workspace directory: nothing of the older file may survive
+  graphs      two or three real ExecutionGraphs in ONE process, same batch type,
+              DIFFERENT batch blocks (bank / queue / host / reservation / qos ..),
+              scripts generated the way the engine does (generate_scripts() or a
+              dry execute_ready_steps()), also interleaved A, B, A: every script
+              of a graph is judged against that graph's own batch block
   exotic      seeded: malformed tokens, zero/empty/odd values, unsafe
               characters, missing batch keys, unicode text (never inside a
               token's brackets)
@@ -337,6 +342,72 @@ class Impl:
                             "restart": None if not rpath else [os.path.basename(rpath), self._read(rpath)]})
             except Exception as e:
                 out.append({"exc": self.classify(e), "cls": type(e).__name__, "msg": str(e)[:160]})
+        return out
+
+    def _graph_once(self, steps, root, mode):
+        """a real ExecutionGraph over `steps` (one batch block), scripts generated by the
+        engine; observables of the written prefix, then the exception (if any)"""
+        from maestrowf.datastructures.core.executiongraph import ExecutionGraph
+        exc = None
+        dag = None
+        try:
+            dag = ExecutionGraph(submission_attempts=1, submission_throttle=0, use_tmp=False, dry_run=True)
+            dag.add_description("study", "two graphs")
+            dag.add_node("_source", None)
+            for i, c in enumerate(steps):
+                dag.add_step(c["name"], self._step(c), os.path.join(root, "s%d" % i), 0)
+                dag.add_connection("_source", c["name"])
+            kw = dict(steps[0]["batch"])
+            if "args" in kw:
+                kw["args"] = dict(kw["args"])
+            dag.set_adapter(kw)
+            if mode == "execute_ready_steps":
+                dag.execute_ready_steps()
+            else:
+                dag.generate_scripts()
+        except Exception as e:
+            exc = e
+        out = []
+        for c in steps:
+            rec = None
+            try:
+                rec = dag.values[c["name"]]
+            except Exception:
+                pass
+            path = getattr(rec, "script", "") if rec is not None else ""
+            if path:
+                try:
+                    rpath = rec.restart_script
+                    out.append({"sched": bool(rec.to_be_scheduled), "name": os.path.basename(path),
+                                "text": self._read(path),
+                                "restart": None if not rpath else [os.path.basename(rpath), self._read(rpath)]})
+                    continue
+                except Exception as e:
+                    exc = exc or e
+            e = exc or RuntimeError("the engine wrote no script for the step")
+            out.append({"exc": self.classify(e) if exc else "Internal", "cls": type(e).__name__, "msg": str(e)[:160]})
+            return out
+        if exc is not None and out:
+            out[-1] = {"exc": "Internal", "cls": type(exc).__name__, "msg": str(exc)[:160]}
+        return out
+
+    def run_graphs(self, group):
+        """the graphs of `group` (lists of steps, one batch block each) are built and have
+        their scripts generated one after the other in THIS process"""
+        self._clean()
+        out = []
+        for gi, steps in enumerate(group):
+            mode = steps[0]["graphs"][3]
+            remaining, part = list(steps), 0
+            while remaining:
+                try:
+                    got = self._graph_once(remaining, os.path.join(self.ws, "g%d_%d" % (gi, part)), mode)
+                except Exception as e:         # e.g. the module does not import
+                    got = [{"exc": "Internal", "cls": type(e).__name__, "msg": str(e)[:160]}]
+                got = got[:len(remaining)] or [{"exc": "Internal", "cls": "NoObservable", "msg": ""}]
+                out.extend(got)
+                remaining = remaining[len(got):]
+                part += 1
         return out
 
     def run_rewrite(self, group):
@@ -644,6 +715,77 @@ def gen_rewrite(rng, gid):
     return group
 
 
+def other_batch(rng, b):
+    """the same batch type, a different block"""
+    o = dict(b)
+    if "args" in o:
+        o["args"] = dict(o["args"])
+    if o["type"] == "local":
+        o["shell"] = "/bin/tcsh" if o.get("shell", "/bin/bash") != "/bin/tcsh" else "/bin/sh"
+        return o
+    ks = rng.sample(["bank", "queue", "host"], rng.randint(1, 3))
+    for k in ks:
+        o[k] = {"bank": ["science", "guests", "wbronze"], "queue": ["pdebug", "pshort", "plong"],
+                "host": ["ruby", "lassen", "corona"]}[k][rng.randrange(3)]
+    if rng.random() < 0.4:
+        if o.get("reservation"):
+            o.pop("reservation")
+        else:
+            o["reservation"] = "other-res"
+    if rng.random() < 0.3:
+        o["qos"] = "expedite" if o.get("qos") != "expedite" else "normal"
+    if rng.random() < 0.25:
+        o["nodes"] = 3 if o.get("nodes") != 3 else 5
+    return o
+
+
+def gen_graphs(rng, gid):
+    """2-3 graphs of 1-2 steps, same batch type, different blocks; the third is graph A's block
+    again (A, B, A) or one more block"""
+    be = rng.choices(["slurm", "lsf", "flux", "local"], [45, 30, 20, 5])[0]
+    a = base_batch(rng, be)
+    blocks = [a, other_batch(rng, a)]
+    if rng.random() < 0.6:
+        blocks.append(a if rng.random() < 0.6 else other_batch(rng, blocks[1]))
+    mode = rng.choice(["generate_scripts", "execute_ready_steps"])
+    group = []
+    for gi, b in enumerate(blocks):
+        steps = []
+        names = rng.sample(NAMES, rng.choice([1, 1, 2]))
+        for si, name in enumerate(names):
+            res, maxn, maxp = gen_res(rng)
+            cmd, cp = gen_cmd(rng, maxn, maxp)
+            restart, rp = ("", [])
+            if rng.random() < 0.2:
+                restart, rp = gen_cmd(rng, maxn, maxp)
+            # the engine substitutes $(WORKSPACE) in the command before the adapter sees it: not the subject here
+            cmd, cp, restart, rp = json.loads(json.dumps([cmd, cp, restart, rp]).replace("$(WORKSPACE)", "./ws"))
+            steps.append({"backend": be, "batch": b, "name": name, "desc": rng.choice(["d", "Run it", ""]),
+                          "cmd": cmd, "restart": restart, "res": res, "cmd_pieces": cp, "restart_pieces": rp,
+                          "stream": "graphs", "graphs": [gid, gi, si, mode]})
+        group.append(steps)
+    return group
+
+
+def small_graphs():
+    """every back-end, both ways of generating: A then B, and A, B, A"""
+    out, gid = [], 0
+    for be in ("slurm", "lsf", "flux"):
+        a = {"type": be, "host": "h1", "bank": "bankA", "queue": "qA", "reservation": "resA"}
+        b = {"type": be, "host": "h2", "bank": "bankB", "queue": "qB"}
+        for mode in ("generate_scripts", "execute_ready_steps"):
+            for blocks in ((a, b), (a, b, a), (b, a)):
+                group = []
+                for gi, blk in enumerate(blocks):
+                    group.append([{"backend": be, "batch": blk, "name": "s1", "desc": "d",
+                                   "cmd": "$(LAUNCHER) ./sim", "restart": "", "res": [["nodes", 1], ["procs", 4]],
+                                   "cmd_pieces": None, "restart_pieces": None, "stream": "graphs",
+                                   "graphs": ["small%d" % gid, gi, 0, mode]}])
+                out.append(group)
+                gid += 1
+    return out
+
+
 def small_rewrites():
     """every back-end (local too): rich then lean, lean then rich, the same twice,
     restart script present then absent"""
@@ -825,19 +967,23 @@ def shape(c, o):
 KNOWN_SIG = {}     # signature name -> (id, what) from KNOWN_FINDINGS.txt
 
 
-def run_all(impl, cases, seqs, rewrites=()):
+def run_all(impl, cases, seqs, rewrites=(), graphs=()):
     """observables: a fresh adapter and directory per single case; one shared
-    adapter per sequence; one shared directory per rewrite group"""
+    adapter per sequence; one shared directory per rewrite group; real
+    ExecutionGraphs one after the other per graphs group"""
     obs = [impl.run(c) for c in cases]
     for seq in seqs:
         obs.extend(impl.run_sequence(seq))
     for grp in rewrites:
         obs.extend(impl.run_rewrite(grp))
-    return cases + [c for seq in seqs for c in seq] + [c for grp in rewrites for c in grp], obs
+    for grp in graphs:
+        obs.extend(impl.run_graphs(grp))
+    return (cases + [c for seq in seqs for c in seq] + [c for grp in rewrites for c in grp]
+            + [c for grp in graphs for g in grp for c in g]), obs
 
 
-def evaluate(ck, cases, impl, tag, count=True, seqs=(), rewrites=()):
-    cases, obs = run_all(impl, cases, list(seqs), list(rewrites))
+def evaluate(ck, cases, impl, tag, count=True, seqs=(), rewrites=(), graphs=()):
+    cases, obs = run_all(impl, cases, list(seqs), list(rewrites), list(graphs))
     bad, errs, detail = classify_cases(tag, cases, obs)
     hist = ck.cov.setdefault("input_distribution", {})
     if count:
@@ -880,6 +1026,20 @@ def evaluate(ck, cases, impl, tag, count=True, seqs=(), rewrites=()):
             cj["sequence"] = [strip_case(x) for x in cases if x.get("seq") and x["seq"][0] == sid]
             cj["note"] = ("step %d of %d written by ONE adapter instance; a fresh instance (= the stateless model) "
                           "gives a different script" % (c["seq"][1] + 1, c["seq"][2]))
+        if c.get("graphs"):
+            gid = c["graphs"][0]
+            cj["graphs_before_in_this_process"] = [
+                {"graph": x["graphs"][1], "batch": x["batch"], "step": x["name"]} for x in cases
+                if x.get("graphs") and x["graphs"][0] == gid and x["graphs"][1] < c["graphs"][1]]
+            cj["note"] = ("graph %d of its group, scripts generated by ExecutionGraph.%s(); judged against this "
+                          "graph's own batch block" % (c["graphs"][1] + 1, c["graphs"][3]))
+            if not d["corr"] and c["graphs"][1] > 0:
+                fresh = impl.run(c)
+                if fresh != o and "exc" not in fresh:
+                    findings.append(("violation", "the scripts of an ExecutionGraph depend on the graphs generated "
+                                     "earlier in the process: they do not request this graph's batch settings "
+                                     "(backend %s)" % c["backend"], dict(cj, fresh_process=fresh)))
+                    continue
         if not d["mon"]:
             known = [KNOWN_SIG[s_] for s_ in d["sigs"] if s_ in KNOWN_SIG]
             if known:
@@ -975,7 +1135,8 @@ def report(ck, findings, impl=None):
         if f[0] == "violation":
             cj = f[2]
             if impl is not None and not shrunk and "sequence" not in cj \
-                    and not cj.get("written_before_into_same_directory"):
+                    and not cj.get("written_before_into_same_directory") \
+                    and "graphs_before_in_this_process" not in cj:
                 shrunk = True
                 try:
                     cj = shrink(impl, cj)
@@ -1014,8 +1175,13 @@ def run(ck):
         n_rw = 40 if ck.tier == "quick" else 1000
         rws = small_rewrites() + [gen_rewrite(rng, i) for i in range(n_rw)]
         ck.cov["rewrites"] = {"groups": len(rws), "writes": sum(len(g) for g in rws)}
-        obs, bad, findings = evaluate(ck, cases, impl, "C15", seqs=seqs, rewrites=rws)
-        cases = cases + [c for q in seqs for c in q] + [c for g in rws for c in g]
+        n_gr = 25 if ck.tier == "quick" else 600
+        grs = small_graphs() + [gen_graphs(rng, i) for i in range(n_gr)]
+        ck.cov["graphs"] = {"groups": len(grs), "graphs": sum(len(g) for g in grs),
+                            "scripts": sum(len(q) for g in grs for q in g)}
+        obs, bad, findings = evaluate(ck, cases, impl, "C15", seqs=seqs, rewrites=rws, graphs=grs)
+        cases = cases + [c for q in seqs for c in q] + [c for g in rws for c in g] \
+            + [c for g in grs for q in g for c in q]
         report(ck, findings, impl)
         ck.cov["traces_validated_against_impl"] = len(cases)
         ck.cov["rule"] = (
@@ -1031,14 +1197,19 @@ def run(ck):
             "must equal the stateless model's for that step alone and satisfy C15_ok with the step's own "
             "effective resources. Rewrite stream: for every back-end (local too) 2-3 steps with one name are "
             "written one after the other into the SAME directory (rich/long first, lean/short later, the same "
-            "twice, restart present then absent); the file content after each write is judged like a fresh one." % ncorpus)
+            "twice, restart present then absent); the file content after each write is judged like a fresh one. "
+            "Graphs stream: in ONE process two or three real ExecutionGraphs of the same batch type with different "
+            "batch blocks (bank / queue / host / reservation / qos / nodes) generate their scripts through "
+            "generate_scripts() or a dry execute_ready_steps(), also A, B, A; every script file is read back and "
+            "judged (model equality and C15_ok) against its own graph's batch block and step." % ncorpus)
 
         def search():
             r2 = random.Random(ck.seed + 7919)
             extra = [gen_case(r2, "structured") for _ in range(2500)] + [gen_case(r2, "exotic") for _ in range(1500)]
             sq = [gen_sequence(r2, "s%d" % i) for i in range(400)]
             rw = [gen_rewrite(r2, "r%d" % i) for i in range(300)]
-            _, _, f2 = evaluate(ck, extra, impl, "C15-search", count=False, seqs=sq, rewrites=rw)
+            gr = [gen_graphs(r2, "g%d" % i) for i in range(150)]
+            _, _, f2 = evaluate(ck, extra, impl, "C15-search", count=False, seqs=sq, rewrites=rw, graphs=gr)
             for f in f2:
                 if f[0] == "violation":
                     try:
